@@ -2,7 +2,7 @@
    facts about their tables (closed by computation on the regenerated scripts). *)
 From Coq Require Import List NArith Bool String.
 Import ListNotations.
-From BM Require Import Bytes Strings Regex Policy Builder GenTables GenRegex GenScripts Forced UGCSpec.
+From BM Require Import Bytes Strings Regex Tokenizer Policy Builder GenTables GenRegex GenScripts Forced UGCSpec.
 Open Scope N_scope.
 
 Definition no_default : bytes -> smatcher := fun _ => ("BaseHandler"%string, Emp).
@@ -55,4 +55,29 @@ Proof. vm_compute. reflexivity. Qed.
 Lemma ugc_safe : allowUnsafe ugc = false. Proof. vm_compute. reflexivity. Qed.
 Lemma strict_safe : allowUnsafe strict = false. Proof. vm_compute. reflexivity. Qed.
 Lemma strict_nothing_allowed : elsAndAttrs strict = [] /\ elsMatchingAndAttrs strict = [] /\ allowComments strict = false /\ addSpaces strict = false.
+Proof. vm_compute. repeat split. Qed.
+
+(* both shipped policies are in the class of the round-trip theorem (Proofs/SanRoundTrip.v):
+   no comments, no AllowUnsafe, no raw-text element allowed *)
+Lemma ugc_no_comments : allowComments ugc = false. Proof. vm_compute. reflexivity. Qed.
+Lemma ugc_raw_not_allowed : forallb (fun x => negb (has_key x (elsAndAttrs ugc))) raw_names = true.
+Proof. vm_compute. reflexivity. Qed.
+Lemma ugc_attr_names_documented :
+  forallb (fun e => match lookup (fst e) ugc_vocabulary with
+                    | Some attrs => subset (keys (snd e)) attrs
+                    | None => false end) (elsAndAttrs ugc) = true.
+Proof. vm_compute. reflexivity. Qed.
+Lemma ugc_global_names_documented : subset (keys (globalAttrs ugc)) ugc_global_attrs = true.
+Proof. vm_compute. reflexivity. Qed.
+Lemma ugc_no_event_or_style_names :
+  forallb (fun e => forallb (fun k => negb (event_or_style_attr k)) (keys (snd e))) (elsAndAttrs ugc) = true /\
+  forallb (fun k => negb (event_or_style_attr k)) (keys (globalAttrs ugc)) = true.
+Proof. vm_compute. split; reflexivity. Qed.
+Lemma ugc_no_styles_no_data :
+  elsAndStyles ugc = [] /\ elsMatchingAndStyles ugc = [] /\ globalStyles ugc = [] /\ allowDataAttributes ugc = false.
+Proof. vm_compute. repeat split. Qed.
+Lemma ugc_url_settings :
+  requireParseableURLs ugc = true /\ allowRelativeURLs ugc = true /\ allowURLSchemeRegexps ugc = [] /\ srcRewriter ugc = None /\
+  subset (keys (allowURLSchemes ugc)) ugc_schemes = true /\
+  forallb (fun e => match snd e with [] => true | _ => false end) (allowURLSchemes ugc) = true.
 Proof. vm_compute. repeat split. Qed.
